@@ -518,6 +518,18 @@ def run(ctx):
     rule_S1(ctx)
     rule_S2(ctx)
     rule_L1(ctx)
+    # premises shared with C08 / C14 (same rule objects, reported under their own ids): the weight divides by
+    # log_q, so log_p() must be the density sample() draws from; proposals / trees served from the caches must be
+    # scored under the current concentration
+    from . import C08, C14
+
+    from ..formula import imported
+
+    ctx._own_rules = set(ctx.rule_min)
+    imported(ctx, C08.rule_B)
+    imported(ctx, C08.rule_S)
+    imported(ctx, C08.rule_F)
+    imported(ctx, C14.rule_K1)
 
 
 # Self-test catalogue: one textual edit each, applied to a scratch copy (see selftest.py).
